@@ -311,6 +311,8 @@ def run_fault(hist, pt, use_model, base):
                redelivered2=obs.get('redelivered2'), reset_status=obs.get('reset_status'),
                reset_fallback=obs.get('reset_fallback'),
                ops=obs['ops'], all_or_none=obs['all_or_none'], inclusion=obs['inclusion'],
+               all_or_none_recovered=obs.get('all_or_none_recovered', []),
+               inclusion_recovered=obs.get('inclusion_recovered', []),
                recovered_trees=obs['recovered_trees'])
     # determinism of the re-run up to the fault
     seen = [o[:2] for o in obs['ops']][:pt['k'] + 1]
@@ -470,6 +472,19 @@ def judge(hist, r, res):
             'key': 'inclusion-interrupted', 'input': inp,
             'what': 'interrupted at %s: %s not included in %s' % (where, r['inclusion'][0][0], r['inclusion'][0][1]),
             'observation': {'pairs': r['inclusion'], 'ops': r['ops'], 'kinds': r['kinds']}})
+    if r.get('all_or_none_recovered'):
+        b = r['all_or_none_recovered'][0]
+        res.oracle_failures.append({
+            'key': 'all-or-none-after-redelivery', 'input': inp,
+            'what': 'after %s and the re-delivery to a fresh Bert-E%s: %s of pull request %d is on %s but not on %s'
+                    % (where, ' + queue reset' if r['reset'] else '', b[1], b[0], b[2], b[3]),
+            'observation': {'breaks': r['all_or_none_recovered'], 'ops': r['ops'], 'redelivered': r['redelivered']}})
+    if r.get('inclusion_recovered'):
+        res.oracle_failures.append({
+            'key': 'inclusion-after-redelivery', 'input': inp,
+            'what': 'after %s and the re-delivery: %s not included in %s'
+                    % (where, r['inclusion_recovered'][0][0], r['inclusion_recovered'][0][1]),
+            'observation': {'pairs': r['inclusion_recovered'], 'ops': r['ops'], 'redelivered': r['redelivered']}})
     if not r['final_same']:
         diff = sorted(n for n in set(r['final_trees']) | set(hist['final_trees'])
                       if r['final_trees'].get(n) != hist['final_trees'].get(n))
